@@ -292,18 +292,43 @@ def check(c):
             c.thorough_proof(['C10'])
         else:
             c.notes.append('thorough_proof skipped: coq/Properties/C10.v is not committed yet (fresh rebuild copies git-tracked files only)')
-    l1_limbs(c, r, quick)
-    l1_uint_unary(c, r, quick)
-    l1_rational(c, r, quick)
-    l1_complex(c, r, quick)
-    l2_numeric(c, r, quick)
-    l2_text(c, r, quick)
+    try:
+        l1_limbs(c, r, quick)
+        l1_uint_unary(c, r, quick)
+        l1_rational(c, r, quick)
+        l1_complex(c, r, quick)
+        l2_numeric(c, r, quick)
+        l2_text(c, r, quick)
+    except TooManyHangs as e:
+        c.notes.append('check stopped early: %s' % e)
     if not quick:
         c.extra['exhaustive_scope'] = 'every Unicode scalar value through "to char" and "to codepoint"; roman 1..4000; all 0<=r<=n<=400 for nCr/nPr'
 
 
 def viol(c, name, d, no_input=False):
     c.violation(name, d, no_input=no_input)
+
+
+class TooManyHangs(Exception):
+    pass
+
+
+def run_impl(c, lines, timeout=None, profile='debug'):
+    """c.impl in slices; a tree on which many requests hang or abort (a broken shift or division makes
+    almost everything loop) is reported with the first such request instead of being waited for"""
+    out = []
+    bad = 0
+    for k in range(0, len(lines), 1500):
+        part = c.impl('intfns', lines[k:k + 1500], timeout=timeout, profile=profile)
+        for ln, o in zip(lines[k:k + 1500], part):
+            if o.startswith('("hang")') or o.startswith('("abort"'):
+                bad += 1
+                if bad <= 3:
+                    viol(c, 'request-hangs-or-aborts', {'kind': 'impl-crash', 'layer': 'impl', 'impl_line': ln[:2000], 'impl': o})
+        out += part
+        if bad > 24:
+            raise TooManyHangs('%d requests hung or aborted' % bad)
+    return out
 
 # ---------------------------------------------------------------- L1 limbs
 
@@ -337,7 +362,7 @@ def l1_limbs(c, r, quick):
         cases.append((op, [0, 3], [1]))
     il = [sx([Sym('b2'), op, a, b]) for op, a, b in cases]
     ml = [sx([Sym('b-bit'), BITOPS[op], a, b]) for op, a, b in cases]
-    impl = c.impl('intfns', il)
+    impl = run_impl(c, il)
     model = c.model('intfns', ml)
     for (op, a, b), io, mo, line in zip(cases, impl, model, il):
         av, bv = rep_val(a) if len(a) > 1 else 0, rep_val(b) if len(b) > 1 else 0
@@ -408,7 +433,7 @@ def l1_uint_unary(c, r, quick):
     il = [sx([Sym('b1'), op, a]) for op, a in cases]
     mop = {'try_as_usize': 'b-usize', 'factorial': 'b-fact', 'words': 'b-words'}
     ml = [sx([Sym('b-fib'), a[1]]) if op == 'fibonacci' else sx([Sym(mop[op]), a]) for op, a in cases]
-    impl = c.impl('intfns', il, timeout=60)
+    impl = run_impl(c, il)
     model = c.model('intfns', ml)
     # Coq's reader of number words applied to the implementation's own text
     pw_idx, pw_lines = [], []
@@ -541,7 +566,7 @@ def l1_rational(c, r, quick):
         else:
             il.append(sx([Sym('u2'), op, a[0], b[0]]))
             ml.append(sx([Sym('q-bin'), BINOPS[op], a[1], b[1]]))
-    impl = c.impl('intfns', il, timeout=60)
+    impl = run_impl(c, il)
     model = c.model('intfns', ml)
     npr_idx = [k for k, cs in enumerate(cases) if cs[1] == 'npr']
     npr_known = dict(zip(npr_idx, c.model('intfns', [sx([Sym('known-npr'), cases[k][3][1]]) for k in npr_idx])))
@@ -637,7 +662,7 @@ def l1_rounding(c, r, quick):
         sl.append(sx([Sym('spec-round'), MODES[mode], rq]))
         kl.append(sx([Sym('known-float'), rq]))
         el.append(sx([Sym('q-round-exact'), MODES[mode], rq]))
-    impl = c.impl('intfns', il, timeout=60)
+    impl = run_impl(c, il)
     model = c.model('intfns', ml)
     spec = c.model('intfns', sl)
     known = c.model('intfns', kl)
@@ -708,7 +733,7 @@ def l1_complex(c, r, quick):
         a, b = r.choice(cplx), r.choice(cplx)
         op = r.choice(['and', 'or', 'xor', 'shl', 'shr', 'mod', 'ncr', 'npr'])
         cases.append((sx([Sym('c2'), op, a, b]), sx([Sym('c-bin'), BINOPS[op], a, b]), op, a, b))
-    impl = c.impl('intfns', [x[0] for x in cases], timeout=60)
+    impl = run_impl(c, [x[0] for x in cases])
     model = c.model('intfns', [x[1] for x in cases])
     def nonreal(z):
         return rep_val(z[1][1][1]) != 0
@@ -813,11 +838,11 @@ def l2_numeric(c, r, quick):
         arg = e[e.index('('):]
         cases.append(('round-expr', e, [arg], want))
     lines = [sx([Sym('eval'), e]) for _, e, _, _ in cases]
-    impl = c.impl('intfns', lines, timeout=60)
+    impl = run_impl(c, lines)
     # raw representations of the evaluated arguments, for the model and the classifier
     argset = sorted({a for op, _, args, vals in cases if (vals is not None and op != 'round-expr') or op == 'domain' for a in args} |
                     {args[0] for op, _, args, vals in cases if op == 'round-expr'})
-    raws = dict(zip(argset, c.impl('intfns', [sx([Sym('eval-raw'), a]) for a in argset], timeout=60)))
+    raws = dict(zip(argset, run_impl(c, [sx([Sym('eval-raw'), a]) for a in argset])))
     def raw_of(a):
         p = impl_out(raws.get(a, ''))
         return [p[1], p[2], p[3]] if p[0] == 'rat' else None
@@ -942,7 +967,7 @@ def l2_text(c, r, quick):
     wexprs = [(r.choice(forms(v, r)) if v < 10 ** 60 and r.random() < 0.3 else str(v), v) for v in wvals]
     bad = ['10^66', '10^66 + 1', '10^70', '-3', '1.5', '(1/3)', '2i', 'pi']
     lines = [sx([Sym('eval'), '(%s) to words' % e]) for e, _ in wexprs] + [sx([Sym('eval'), '(%s) to words' % e]) for e in bad]
-    impl = c.impl('intfns', lines)
+    impl = run_impl(c, lines)
     texts = []
     for (e, v), io, line in zip(wexprs, impl, lines):
         i = impl_out(io)
@@ -974,7 +999,7 @@ def l2_text(c, r, quick):
         rvals += list(range(4001, 20000))
     rbad = ['0', '10^9 + 1', '10^12', '2^64', '2^64 + 1', '-1', '1.5', '(7/2)', '2i', 'pi']
     lines = [sx([Sym('eval'), '%d to roman' % v]) for v in rvals] + [sx([Sym('eval'), '(%s) to roman' % e]) for e in rbad]
-    impl = c.impl('intfns', lines, timeout=60)
+    impl = run_impl(c, lines)
     ok_texts = []
     for v, io, line in zip(rvals, impl, lines):
         i = impl_out(io)
@@ -1014,9 +1039,9 @@ def l2_text(c, r, quick):
              ('2i to char', None), ('pi to char', None)]
     elines = [sx([Sym('eval'), e]) for e, _ in extra]
     prof = 'debug' if quick else 'release'
-    impl_c = c.impl('intfns', clines, profile=prof)
-    impl_p = c.impl('intfns', plines, profile=prof)
-    impl_e = c.impl('intfns', elines, profile=prof)
+    impl_c = run_impl(c, clines, profile=prof)
+    impl_p = run_impl(c, plines, profile=prof)
+    impl_e = run_impl(c, elines, profile=prof)
     for v, io, line in zip(cps, impl_c, clines):
         i = impl_out(io)
         c.note_case('ch%x' % v, v > 0x7f, 'L2-char')
